@@ -40,7 +40,10 @@ type treeEnt struct {
 // genTree creates a random tree at root and returns its description (relative path -> entry).
 func genTree(rng *rand.Rand, root string, big bool) map[string]treeEnt {
 	out := map[string]treeEnt{}
-	names := []string{"a", "b.txt", "sub", "deep", "ünï-文", strings.Repeat("n", 120), "with space", "x.y.z"}
+	// (names that merely begin with dots are ordinary names: "..data", "..2024_01_01" as in
+	// atomically updated config volumes, "...", ".hidden")
+	names := []string{"a", "b.txt", "sub", "deep", "ünï-文", strings.Repeat("n", 120), "with space", "x.y.z",
+		"..data", "..env", ".hidden", "...", "..2024_01_01"}
 	var rec func(rel string, depth int)
 	rec = func(rel string, depth int) {
 		n := 1 + rng.Intn(4)
